@@ -15,7 +15,7 @@ ASSUME = [
 
 
 def main():
-    ts = families.c02(runner.tier())
+    ts = families.c02(runner.tier(), runner.seed())
     rc, _ = tvwasmcheck.run('C02', ts, ASSUME,
         'Each template is compiled by the freshly built compiler for both targets. The QBE IL of its function (pointer size 8) and the same function decoded from the emitted .wasm binary (pointer size 4) are executed symbolically on the same free 64-bit inputs; for every pair of paths z3 decides that termination class, returned value and printed values agree. Counterexamples and one witness per template are replayed on the linked native executable and under node with the shipped runtime.js.')
     sys.exit(rc)
